@@ -1,8 +1,17 @@
 import Drv.Base
-open Lean Pdt
+import Drv.Blocks
+import PdtModel.Model.Blocks
+open Lean Pdt Pdt.Reader Pdt.Blocks
 namespace Drv
 
-/-- op handler of the `Rewrites` layer (stub until the layer is built) -/
-def handleRewrites (_op : String) (_j : Json) : Option (Except String Json) := none
+/-- op handler of the `Rewrites` layer.
+    "offered": the (type, name) pairs `accepts` hands to a read filter, one per block of the segmentation -/
+def handleRewrites (op : String) (j : Json) : Option (Except String Json) :=
+  match op with
+  | "offered" => some do
+    let rows ← rowsOfJson (← j.getObjVal? "rows")
+    pure (arr ((segment rows).map fun b =>
+      arr [Json.str (btString b.ty), str (if b.ty = .table then offeredName b.rows else []), nat b.first]))
+  | _ => none
 
 end Drv
